@@ -160,6 +160,16 @@ def handle : Handler := fun op inp impl => do
         holds := holds ++ RV.Oracle.RolloutSM.stepOracles w r ++ RV.Oracle.RolloutSM.canaryStyleOracles w r
         -- C07 "nothing oscillates": a successful write to the BatchRelease changes it (a reconcile that rewrites an identical
         -- BatchRelease never reaches the fixed point `runBatchRelease` waits for)
+        -- C01 / C02 / C11: the Rollout trusts `batchReady` only of a BatchRelease whose status has acknowledged the CURRENT plan
+        -- (observed hash = hash of the spec): right after this reconcile changed the batch partition, the stored
+        -- acknowledgement must not cover the new partition yet (model: `runBatchRelease` / `finalizingBatchRelease` set
+        -- `hashSame := false`) - a plan hash that is blind to the partition would let a stale "ready" stand for the new batch
+        let partChanged := match w.br, w'.br with
+          | some b, some b' => b.partition != b'.partition
+          | _, _ => false
+        let unack := !partChanged || (w'.br.map (·.hashSame)) == some false
+        holds := holds ++ [("C01.partition_change_unacknowledged", unack), ("C02.partition_change_unacknowledged", unack),
+                           ("C11.partition_change_unacknowledged", unack)]
         let implBrWritten := (jopt impl "brWritten").bind (fun x => x.getBool?.toOption) |>.getD false
         holds := holds ++ [("C07.br_write_changes_it", !implBrWritten || w'.br != w.br),
                            ("C02.br_write_changes_it", !implBrWritten || w'.br != w.br)]
